@@ -289,6 +289,58 @@ main(void)
 			LIB(H = ptrheap_init(hcompar, NULL, NULL));
 			printf("%s rf=%u", H ? "ok" : "fail", hw_rf());
 			h_l2();
+		} else if (hc_is("h_create", 1)) {
+			/* h_create <id>:<key>,<id>:<key>,...  (`-`: no element) = ptrheap_create from an array of N >= 0 pointers */
+			static size_t cid[MAXID];
+			static long long ckey[MAXID];
+			static char seen[MAXID];
+			size_t n = 0;
+			int bad = 0;
+			char * p = hc_tok[1], * e;
+
+			memset(seen, 0, sizeof(seen));
+			if (strcmp(p, "-") != 0) {
+				for (;;) {
+					id = strtoull(p, &e, 10);
+					if (e == p || *e != ':' || id >= MAXID || seen[id] || n >= MAXID) {
+						bad = 1;
+						break;
+					}
+					seen[id] = 1;
+					cid[n] = id;
+					p = e + 1;
+					ckey[n++] = strtoll(p, &e, 10);
+					if (e == p || (*e != ',' && *e != '\0')) {
+						bad = 1;
+						break;
+					}
+					if (*e == '\0')
+						break;
+					p = e + 1;
+				}
+			}
+			if (bad)
+				printf("skip");		/* an id the harness cannot name, or the same pointer twice */
+			else {
+				/* the caller's array: an exact-size block of its own (not a library allocation), NULL for N = 0 */
+				void ** ptrs = n ? malloc(n * sizeof(void *)) : NULL;
+
+				if (H != NULL)
+					LIB(ptrheap_free(H));
+				memset(hlive, 0, sizeof(hlive));
+				for (i = 0; i < n; i++) {
+					hkey[cid[i]] = ckey[i];
+					ptrs[i] = (void *)(uintptr_t)(cid[i] + 1);
+				}
+				hw_begin();
+				LIB(H = ptrheap_create(hcompar, NULL, NULL, n, ptrs));
+				free(ptrs);
+				if (H != NULL)
+					for (i = 0; i < n; i++)
+						hlive[cid[i]] = 1;
+				printf("%s rf=%u", H ? "ok" : "fail", hw_rf());
+				h_l2();
+			}
 		} else if (hc_tok[0][0] == 'h' && hc_tok[0][1] == '_' && H == NULL) {
 			printf("skip");
 		} else if (hc_is("h_add", 2)) {
